@@ -107,8 +107,26 @@ type Case struct {
 	Cache  int      `json:"cache"` // size of each LRU (0 = caches disabled)
 	Oracle string   `json:"oracle"`
 	Kinds  []string `json:"oracle_kinds,omitempty"` // every oracle clause that failed on this case
+	Fails  []Fail   `json:"fails,omitempty"`        // one entry per failing clause (first occurrence)
 	Sig    *Sig     `json:"sig,omitempty"`
 	Shrunk *Case    `json:"shrunk,omitempty"`
+}
+
+// one failing oracle clause of a case
+type Fail struct {
+	Sig    Sig    `json:"sig"`
+	Reason string `json:"reason"`
+}
+
+// kinds of failure that are recorded open findings (flag -known): they never take the place of
+// another failing clause as the verdict of a case
+var knownKinds = map[string]bool{}
+
+func rankOf(prio map[string]int, kind string) int {
+	if knownKinds[kind] {
+		return 1000 + prio[kind]
+	}
+	return prio[kind]
 }
 
 type Sig struct {
@@ -714,7 +732,7 @@ func run(c *Case) {
 	// most property-level one (a wrong decision before a wrong internal state)
 	prio := map[string]int{"cache-dependence": 1, "cache-dependence-error": 2, "semantics": 3, "noncanonical-case-precedence": 4,
 		"order-dependence": 5, "order-dependence-error": 6, "enforce-dispatch": 7, "cached-policy-mutated": 8, "compile-error-on-valid-policies": 9}
-	c.Kinds = nil
+	c.Kinds, c.Fails = nil, nil
 	fail := func(kind string, ti int, i int, got, want string, nc bool) {
 		for _, k := range c.Kinds {
 			if k == kind {
@@ -722,18 +740,20 @@ func run(c *Case) {
 			}
 		}
 		c.Kinds = append(c.Kinds, kind)
-		if c.Sig != nil && prio[c.Sig.Kind] <= prio[kind] {
-			return
-		}
 		s := &Sig{Kind: kind, Token: ti, NonCanon: nc}
+		var msg string
 		if i >= 0 {
 			s.Method, s.Name = describe(qs, i)
 			s.Got, s.Want = string(got[i]), string(want[i])
-			c.Oracle = fmt.Sprintf("%s: token %d (policies %v) %s(%q) = %s, expected %s", kind, ti, c.Toks[ti].Idx, s.Method, s.Name, dname(s.Got), dname(s.Want))
+			msg = fmt.Sprintf("%s: token %d (policies %v) %s(%q) = %s, expected %s", kind, ti, c.Toks[ti].Idx, s.Method, s.Name, dname(s.Got), dname(s.Want))
 		} else {
-			c.Oracle = fmt.Sprintf("%s: after resolving token %d (policies %v)", kind, ti, c.Toks[ti].Idx)
+			msg = fmt.Sprintf("%s: after resolving token %d (policies %v)", kind, ti, c.Toks[ti].Idx)
 		}
-		c.Sig = s
+		c.Fails = append(c.Fails, Fail{*s, msg})
+		if c.Sig != nil && rankOf(prio, c.Sig.Kind) <= rankOf(prio, kind) {
+			return
+		}
+		c.Oracle, c.Sig = msg, s
 	}
 	for i := range c.Pool {
 		e := &c.Pool[i]
@@ -1282,7 +1302,13 @@ func main() {
 	out := flag.String("out", "", "output file (JSON lines)")
 	tab := flag.String("tab", "", "write the finite-domain tables (JSON) to this file")
 	replay := flag.String("replay", "", "re-run the case of a replay file")
+	known := flag.String("known", "", "comma-separated failure kinds that are recorded open findings")
 	flag.Parse()
+	for _, k := range strings.Split(*known, ",") {
+		if k != "" {
+			knownKinds[k] = true
+		}
+	}
 
 	if *replay != "" {
 		b, err := os.ReadFile(*replay)
@@ -1301,10 +1327,10 @@ func main() {
 				fmt.Printf("policy id=%d idx=%d datacenters=%v\n%s", p.ID, p.Idx, dcNames(p.DCs), p.HCL)
 			}
 			for _, r := range c.Roles {
-				fmt.Printf("role %d policies=%v service identities=%v node identities=%v\n", r.ID, r.Pols, r.SIs, r.NIs)
+				fmt.Printf("role %d policies=%v service identities=%v node identities=%v templated policies=%v\n", r.ID, r.Pols, r.SIs, r.NIs, r.TPs)
 			}
 			for _, t := range c.Toks {
-				fmt.Printf("token %d policies=%v roles=%v service identities=%v node identities=%v\n", t.ID, t.Pols, t.Roles, t.SIs, t.NIs)
+				fmt.Printf("token %d policies=%v roles=%v service identities=%v node identities=%v templated policies=%v\n", t.ID, t.Pols, t.Roles, t.SIs, t.NIs, t.TPs)
 			}
 			for i, st := range c.Steps {
 				fmt.Printf("step %d: resolve token %d in %s err=%v\n", i, c.Toks[st.Tok].ID, dcName(c.DC), st.Err)
